@@ -55,6 +55,10 @@ const (
 	maxAddress   = 0xffff
 )
 
+// maxADULen is the size of the largest Modbus frame (260 bytes
+// for TCP, 256 for RTU)
+const maxADULen = 260
+
 // minRequestLen is the minimum number of PDU bytes for a request with
 // the given function code (not including slave address or checksum,
 // which are part of the ADU).
